@@ -59,13 +59,17 @@ def find_func(funcs, spec):
     hits = []
     for f in funcs.values():
         k = f.key
-        if k[0] != spec.file:
+        if spec.file is not None and k[0] != spec.file:
             continue
         short = k[1]
         if not re.search(spec.name, short):
             continue
-        if spec.sig and not re.search(spec.sig, k[2]):
-            continue
+        if spec.sig:
+            from contracts import norm_types
+            if not hasattr(f, 'nsig'):
+                f.nsig = norm_types(k[2])
+            if not re.search(spec.sig, f.nsig):
+                continue
         hits.append(f)
     return hits
 
@@ -185,6 +189,11 @@ def verify_function(funcs, spec, seed=0):
             res.add('%s/%s/support' % (spec.fid, case.name), 'undecided', 'level: %s' % (e,))
         except RecursionError:
             res.add('%s/%s/support' % (spec.fid, case.name), 'undecided', 'recursion limit')
+        except Infeasible as e:
+            res.add('%s/%s/vacuity' % (spec.fid, case.name), 'undecided', 'spec case infeasible: %s' % (e,))
+        except Exception as e:
+            import traceback
+            res.add('%s/%s/support' % (spec.fid, case.name), 'undecided', 'interpreter error %r at %s' % (e, traceback.format_exc().splitlines()[-3].strip()[:120]))
         res.handover += contracts.used
     for oid, (status, detail, secs, cex, n) in clause_status.items():
         res.add(oid, status, (detail + (' (%d paths)' % n)).strip(), secs, cex)
